@@ -530,7 +530,9 @@ def stage (s : AState) (g : StageArgs) : AState × Res :=
           outpoint := if hasOp then { txid := g.txid, idx := g.idx } else a.outpoint
           bk := if hasInc then a.bk + 1 else a.bk
           expiry := if hasOp && g.supportsExt && g.newExpiry != 0 then g.newExpiry else a.expiry
-          version := if hasOp && g.supportsUpgrade && g.newVersion > a.version then g.newVersion else a.version
+          version := if hasOp && g.supportsUpgrade && g.newVersion > a.version
+                        && !(Lifecycle.storerOptionalExclusive && g.supportsExt && g.newExpiry != 0)
+                     then g.newVersion else a.version
           value := g.endBal
           heightHint := g.height }
         let t : Tx := { id := g.txid, spends := [a.outpoint],
